@@ -315,6 +315,7 @@ package actor
 //@   ghost at call Start#2 before: assert[C12.restart.event] loglen == entry(loglen) + 1 && isev(log[entry(loglen)], Broadcast) && log[entry(loglen)].Broadcast_e == p.context.engine && istype(log[entry(loglen)].Broadcast_msg, ActorRestartedEvent) &&
 //@        log[entry(loglen)].Broadcast_msg.(ActorRestartedEvent).PID == p.pid && log[entry(loglen)].Broadcast_msg.(ActorRestartedEvent).Restarts == p.restarts && log[entry(loglen)].Broadcast_msg.(ActorRestartedEvent).Reason == v
 //@   ensures[C06.budget.bounded] budgetInv(p)
+//@   ensures[C06.budget.counter-never-decreases] p.restarts >= entry(p.restarts)
 //@   ensures[C06.budget.restart-only-within] entry(p.restarts) == p.Opts.MaxRestarts && !istype(v, *InternalError) ==> p.restarts == entry(p.restarts) && forall(k, entry(loglen) <= k && k < loglen ==> !isev(log[k], Produce) && !isev(log[k], InboxStart))
 //@   ensures[C06.exhaust.event] entry(p.restarts) == p.Opts.MaxRestarts && !istype(v, *InternalError) ==> isev(log[entry(loglen)], Broadcast) && log[entry(loglen)].Broadcast_e == p.context.engine &&
 //@        istype(log[entry(loglen)].Broadcast_msg, ActorMaxRestartsExceededEvent) && log[entry(loglen)].Broadcast_msg.(ActorMaxRestartsExceededEvent).PID == p.pid
@@ -352,6 +353,7 @@ package actor
 //@   ensures[C04.start.phase] phase == 2 || phase == 3
 //@   ensures phase == 2 ==> !afterCrash
 //@   ensures[C06.budget.bounded] budgetInv(p)
+//@   ensures[C06.budget.counter-never-decreases] p.restarts >= entry(p.restarts)
 //@   ensures !isnil(p.context.receiver) && procInv(p)
 //@   ensures[C04.start.produce-first] loglen > entry(loglen) && log[entry(loglen)] == Produce(p)
 //@   ensures[C04.start.log-prefix] forall(k, 0 <= k && k < entry(loglen) ==> log[k] == entry(log)[k])
@@ -389,6 +391,7 @@ package actor
 //@   ensures[C04.invoke.phase] phase == 2 || phase == 3
 //@   ensures phase == 2 ==> !afterCrash
 //@   ensures[C06.budget.bounded] budgetInv(p)
+//@   ensures[C06.budget.counter-never-decreases] p.restarts >= entry(p.restarts)
 //@   ensures !isnil(p.context.receiver) && procInv(p)
 //@   ensures[C04.invoke.log-prefix] loglen >= entry(loglen) && forall(k, 0 <= k && k < entry(loglen) ==> log[k] == entry(log)[k])
 //@   ghost at entry: inDrain = false; drainIdx = 0; pillIdx = 0
@@ -402,7 +405,7 @@ package actor
 //@        isev(log[loglen - ite(pill.cancel != nil, 1, 0) - 2], Deliver) && istype(log[loglen - ite(pill.cancel != nil, 1, 0) - 2].Deliver_msg, Stopped)
 //@   loop 1
 //@     invariant 0 <= i && i <= len(msgs) && nproc == i && processed == i && nmsg == len(msgs)
-//@     invariant phase == 2 && !afterCrash && procInv(p) && curproc == p && !isnil(p.context.receiver) && budgetInv(p) && p.context.receiver == old(p.context.receiver) && (tok || startPerm) && !stoppedByMe && tok == old(tok)
+//@     invariant phase == 2 && !afterCrash && procInv(p) && curproc == p && !isnil(p.context.receiver) && budgetInv(p) && p.context.receiver == old(p.context.receiver) && (tok || startPerm) && !stoppedByMe && tok == old(tok) && p.restarts >= entry(p.restarts)
 //@     invariant forall(k, 0 <= k && k < len(msgs) ==> msgs[k] == old(msgs[k]))
 //@     invariant loglen == entry(loglen) + i
 //@     invariant forall(k, 0 <= k && k < i ==> log[entry(loglen) + k] == deliveryOf(p, msgs[k].Msg, msgs[k].Sender))
@@ -412,7 +415,7 @@ package actor
 //@   loop 2
 //@     invariant rangeindex >= -1 && rangeindex < len(msgsToProcess) && len(msgsToProcess) == len(msgs) - processed && msgsToProcess.arr == msgs.arr && msgsToProcess.off == msgs.off + processed
 //@     invariant 0 <= i && i < len(msgs) && nproc == i + 1 && processed == i && nmsg == len(msgs) && isPill(msgs[i].Msg) && msg == msgs[i] && pill == msg.Msg.(poisonPill)
-//@     invariant phase == 2 && !afterCrash && procInv(p) && curproc == p && !isnil(p.context.receiver) && budgetInv(p) && p.context.receiver == old(p.context.receiver) && (tok || startPerm) && !stoppedByMe && tok == old(tok)
+//@     invariant phase == 2 && !afterCrash && procInv(p) && curproc == p && !isnil(p.context.receiver) && budgetInv(p) && p.context.receiver == old(p.context.receiver) && (tok || startPerm) && !stoppedByMe && tok == old(tok) && p.restarts >= entry(p.restarts)
 //@     invariant forall(k, 0 <= k && k < len(msgs) ==> msgs[k] == old(msgs[k]))
 //@     invariant loglen >= entry(loglen) + i
 //@     invariant forall(k, 0 <= k && k < i ==> log[entry(loglen) + k] == deliveryOf(p, msgs[k].Msg, msgs[k].Sender))
@@ -526,7 +529,6 @@ package actor
 // Inbox.run. The interleaving of these with the worker (one worker at a time,
 // no lost wake-up) is the subject of C02/C03 and is not decided here.
 
-//@ event RingPush(rb Ref, msg Iface, sender Ref as *PID)
 //@ event ProcInvoke(proc Iface, msgs Slice)
 
 //@ func (Processer).Invoke(msgs)
@@ -606,9 +608,10 @@ package actor
 //@   props C01 C02 C03
 //@   requires inboxOK(in) && !owes
 //@   modifies in.procStatus, in.rb.content, in.rb.len, in.rb.content.*, elements(in.rb.content.items), tokens, wakers, owes
-//@   ghost at call Push#1: emit RingPush(arg0, arg1.Msg, arg1.Sender); wakers = wakers + 1; owes = true
+//@   ghost at call Push#1 before: assert[C01.inbox.pushes-exactly-the-envelope] arg0 == in.rb && arg1 == msg
+//@   ghost at call Push#1: wakers = wakers + 1; owes = true
 //@   ghost at call schedule#1 before: assert[C03.send.push-before-schedule] loglen == entry(loglen) + 1 && owes
-//@   emits RingPush(in.rb, msg.Msg, msg.Sender)
+//@   emits RingPush(in.rb)
 //@   ensures[C03.exit.no-debt] !owes
 
 //@ func (*Inbox).process()
